@@ -16,7 +16,7 @@ from harness import common, front
 
 PID = 'C07'
 
-NAMES = ['x', 'y', 'z', 'p', 'q', 'xy', 'pq']
+NAMES = ['x', 'y', 'z', 'p', 'q', 'xy', 'pq', 'a-b', 'a-b-c', 'n_1.v']     # hyphens and dots are legal in names of all syntaxes
 OLDELSE = ['x', 'p', 'xy', 'pq', 'y']
 EXPRS = ['p', 'p+1', 'q', 'not p', 'o.a', 'p > 3', 'f()', 'y()', 'x', "q+q", 'nope']
 SAFE_TEXT = ['a', ' b ', 'line\n', '\n', ' \n', 'Hello, world.', 'x=1;', 't(1)', '', '', ' ', '[k]', '\ttab', 'é!']
@@ -291,12 +291,13 @@ def namespaces():
         return [
             {'x': Log('x', 'X<&'), 'y': Log('y', 0), 'z': Log('z', 'zed one two'), 'p': 5, 'q': 'quoted "text"\nline',
              's': [Obj(k=2, t='b'), Obj(k=1, t='a'), Obj(k=3, t='c')], 'm': [{'k': 1, 't': 'u'}], 'e0': [], 'o': Obj(a='A', k=9),
-             'd': {'a': 'DA', 'x': 'DX'}, 'f': Log('f', 'F')},
+             'd': {'a': 'DA', 'x': 'DX'}, 'f': Log('f', 'F'), 'xy': 'XY', 'pq': Log('pq', 'PQ<>'), 'a-b': 'a b&c', 'a-b-c': Log('abc', 'ABC'),
+             'n_1.v': 'n 1'},
             {'x': Log('x', ''), 'y': Log('y', 1), 'z': Log('z', None), 'p': 0, 'q': '',
-             's': [], 'm': [], 'e0': [], 'o': Obj(a=''), 'd': {}, 'f': Log('f', 0)},
+             's': [], 'm': [], 'e0': [], 'o': Obj(a=''), 'd': {}, 'f': Log('f', 0), 'xy': '', 'a-b': 0, 'a-b-c': Log('abc', ''), 'n_1.v': None},
             {'x': Log('x', KeyError('kx')), 'y': Log('y', [1]), 'z': Log('z', 12345678), 'p': 12345, 'q': 'A b',
              's': [Obj(k=1, t='a')], 'm': [{'k': 2, 't': 'v'}, {'k': 1, 't': 'w'}], 'e0': [], 'o': Obj(a=1), 'd': {'a': 1},
-             'f': Log('f', ValueError('vf'))},
+             'f': Log('f', ValueError('vf')), 'xy': 'x y', 'pq': 1, 'a-b': 'A-B', 'a-b-c': Log('abc', KeyError('abc')), 'n_1.v': 'N'},
         ][i]
     return log, mk
 
